@@ -72,6 +72,7 @@ INC_SCHED = {"suite": "incentive", "trace": "Trace_Incentive", "cfg": "Trace_Inc
 MC_INC = [{"module": "MC_Incentive", "quick": "MC_Incentive_quick.cfg", "thorough": "MC_Incentive.cfg", "workers": 6, "timeout": {"quick": 600, "thorough": 3000}},
           {"module": "MC_Incentive", "quick": "MC_Incentive_flows.cfg", "thorough": "MC_Incentive_flows.cfg", "workers": 4},
           {"module": "MC_Incentive", "quick": "MC_Incentive_sched.cfg", "thorough": "MC_Incentive_sched.cfg", "workers": 4, "emits": "MC_Incentive_sched"}]
+MC_EMISSION = {"module": "MC_Emission", "quick": "MC_Emission_fresh.cfg", "thorough": "MC_Emission.cfg", "workers": 6}
 MATH_WEIGHT = {"suite": "math", "trace": "Trace_Math", "cfg": "Trace_Math.cfg", "extra": {"kind": "weight"},
                "quick": {"runs": 10, "ops": 2000}, "thorough": {"runs": 500, "ops": 2000}, "procs": 4}
 
@@ -129,8 +130,8 @@ PROPS = {
                         "extra": {"mode": "sched"}, "quick": {"runs": 400}, "thorough": {"runs": 0}, "procs": 8}, DIST_RANDOM, DIST_MULTI],
             "tags": ["C10."]},
     "C11": {"mc": MC_INC + [MC_HELPER], "suites": [INC_SCHED, INC_RANDOM, HELPER_SUITE]},
-    "C12": {"mc": MC_INC, "suites": [INC_SCHED, INC_RANDOM]},
-    "C13": {"mc": MC_INC, "suites": [INC_SCHED, INC_RANDOM, MATH_WEIGHT]},
+    "C12": {"mc": MC_INC + [MC_EMISSION], "suites": [INC_SCHED, INC_RANDOM]},
+    "C13": {"mc": MC_INC + [MC_EMISSION], "suites": [INC_SCHED, INC_RANDOM, MATH_WEIGHT]},
     "C14": {"mc": [MC_POOL, MC_VAULT, MC_ROUTER], "suites": [POOL_SUITE, VAULT_SUITE, ROUTE_SUITE, TRIO_SUITE, POOL_STABLE]},
     "C15": {"mc": [MC_POOL, MC_ROUTER], "suites": [POOL_SUITE, MATH_SPREAD, ROUTE_SUITE, POOL_STABLE, TRIO_SUITE]},
 }
